@@ -360,6 +360,8 @@ def eval_marker_tree(ctx, tree, on_node, *, prop, watchdog=5.0):
 
     def hook(t, v):
         n = {"and": 2, "or": 2, "only": 1, "exclude": 1, "noextras": 1, "str": 1}.get(t[0], 0)
+        if t[0] in ("mof", "uof"):
+            n = len(t) - 1
         kids = stack[len(stack) - n:] if n else []
         if n:
             del stack[len(stack) - n:]
